@@ -126,17 +126,17 @@ Definition d_expand (args : list val) (obs : val) : verdict :=
   | _ => bad_case
   end.
 
-(* GetVoxelIDfromSpatialID has no error result: observed [x; y; f], or a panic (index out of range) for fewer than five fields *)
+(* GetVoxelIDfromSpatialID has no error result: observed [x; y; f], or the empty list for fewer than five fields (a panic is never accepted) *)
 Definition d_voxel (args : list val) (obs : val) : verdict :=
   match args with
   | [VS s] =>
-      let o := match obs with VPanic => Some None | _ => match as_LZ obs with Some l => Some (Some l) | None => None end end in
-      match o with
-      | Some o' =>
-          let m := voxel_id s in
-          let c := match m, o' with Some a, Some b => list_eqb Z.eqb a b | None, None => true | _, _ => false end in
-          mkv c (check_voxel s o') "-" (match m with Some l => of_LZ l | None => VPanic end)
-      | None => bad_case
+      match obs with
+      | VPanic | VTimeout | VE _ => bad_case
+      | _ =>
+        match as_LZ obs with
+        | Some o => let m := voxel_id s in mkv (list_eqb Z.eqb m o) (check_voxel s o) "-" (of_LZ m)
+        | None => bad_case
+        end
       end
   | _ => bad_case
   end.
